@@ -34,6 +34,8 @@ def main():
             sh("git", "-C", WT, "checkout", "--", ".")
             sh("git", "-C", WT, "clean", "-fdq")
             a = sh("git", "-C", WT, "apply", os.path.join(VERIF, "seeded", n, "patch.diff"))
+            if a.returncode:      # the tree has moved on since the change was written: fall back to a three-way merge
+                a = sh("git", "-C", WT, "apply", "--3way", os.path.join(VERIF, "seeded", n, "patch.diff"))
             if a.returncode:
                 print(f"{n}: PATCH DOES NOT APPLY ANY MORE {a.stderr.strip()[:160]}", flush=True)
                 continue
